@@ -6,6 +6,7 @@
   no stack).  Helper lemmas: AHP/Lemmas/Builder*.lean.
 -/
 import AHP.Lemmas.BuilderTop
+import AHP.Lemmas.WrapStr
 namespace AHP.C02
 open AHP AHP.Spec
 
@@ -247,6 +248,24 @@ theorem rootNodes_wrapped (dt : Option Str) (kids : List Node) :
 theorem html_wrapped (kids : List Node) :
     docHTML none (.elem wrapperName AttrState.empty false kids) = htmlL kids := by
   simp [docHTML, Node.innerHTML]
+
+/-- **C02f (partial).** `addStartTag` at character level: when the text starts with newlines, then blanks,
+    then a doctype declaration as the tokenizer delimits it (`<!doctype` in any letter case, up to the first
+    `>`), the wrapper start tag is placed directly after that declaration — which is where the token-level
+    `wrapToks` places it.  Not proved: the complementary case (no such prefix ⇒ the wrapper goes in front), and
+    the composition `lexStrict (wrapStr (renderToks ts)) = some (wrapToks ts)`; both are covered by the `wrap`
+    cases of the stream, which compare `wrapStr` with the real `addStartTag`. -/
+theorem addStartTag_after_doctype_partial (nl bl d rest : Str)
+    (hnl : ∀ x ∈ nl, isNl x = true) (hbl : ∀ x ∈ bl, isBl x = true)
+    (hd : lower (d.take 7) = "doctype".toList) (hgt : '>' ∉ d) :
+    wrapStr (nl ++ bl ++ ('<' :: '!' :: d ++ '>' :: rest))
+      = nl ++ bl ++ ('<' :: '!' :: d ++ ['>']) ++ ('<' :: wrapperName ++ ['>']) ++ rest
+          ++ ('<' :: '/' :: wrapperName ++ ['>']) := by
+  unfold wrapStr addStartTagStr
+  rw [doctypePrefix_decl nl bl d rest hnl hbl hd hgt]
+
+example : wrapStr "\n  <!DOCTYPE html><a></a>x".toList = "\n  <!DOCTYPE html><xxxblank><a></a>x</xxxblank>".toList := by decide
+example : wrapStr " \n<!DOCTYPE html><a></a>".toList = "<xxxblank> \n<!DOCTYPE html><a></a></xxxblank>".toList := by decide
 
 /-! #### Non-vacuity -/
 example : NoWrapper [.start "a".toList [], .data "x".toList, .end_ "b".toList, .start "br".toList []] := by
